@@ -21,10 +21,14 @@ theorem stmtSemF_seq {ctx : Ctx} {T : List FEntry} {B : Nat} {src1 src2 src : Na
       (∃ f1 f2 c1, src1 f1 c = some (.normal, c1) ∧ src2 f2 c1 = some (o, c'))) :
     StmtSemF ctx T B src s s2 := by
   have hfc := h1.forCounter
-  obtain ⟨cs1, n1, m1, e1, sim1⟩ := h1
-  obtain ⟨cs2, n2, m2, e2, sim2⟩ := h2
-  refine ⟨cs1 ++ cs2, n1 + n2, m1 + m2, ?_, ?_⟩
+  obtain ⟨cs1, n1, m1, e1, hl1, sim1⟩ := h1
+  obtain ⟨cs2, n2, m2, e2, hl2, sim2⟩ := h2
+  refine ⟨cs1 ++ cs2, n1 + n2, m1 + m2, ?_, ?_, ?_⟩
   · rw [e2, e1, adv2_adv2, flats_append, List.reverse_append]
+  · rw [flats_append]
+    refine (hl1.mono (by omega)).append ?_
+    have : s1.forCounter + m2 = s.forCounter + (m1 + m2) := by rw [e1]; simp [adv2, Nat.add_assoc]
+    rw [← this]; exact hl2
   · intro fuel c o c' hs m hi
     rcases hsrc fuel c o c' hs with ⟨f1, hs1, hne⟩ | ⟨f1, f2, c1, hs1, hs2⟩
     · obtain ⟨m', o', ex, hr, ho, hk, hv⟩ := sim1 f1 c o c' hs1 m hi
@@ -37,7 +41,7 @@ theorem stmtSemF_seq {ctx : Ctx} {T : List FEntry} {B : Nat} {src1 src2 src : Na
       exact ⟨mb, ob, execCmds_append exa exb, hrb, hob, fun hne => ka.trans (hkb hne) hfc, hvb⟩
 
 theorem stmtSemF_nil (ctx : Ctx) (T : List FEntry) (B : Nat) (s : St) : StmtSemF ctx T B (fun f c => execSs f [] c) s s := by
-  refine ⟨[], 0, 0, rfl, ?_⟩
+  refine ⟨[], 0, 0, rfl, by simp [flats]; exact LinesOK.nil _ _ _, ?_⟩
   intro fuel c o c' hs m hi
   cases fuel with
   | zero => simp [execSs] at hs
@@ -170,7 +174,7 @@ theorem loop_simF {ctx : Ctx} {T : List FEntry} {B : Nat} {cond : Expr} {incr : 
     split at h
     · -- the condition was evaluated
       rename_i ov c0 hce
-      obtain ⟨m2, ex2, hi2, hc2, hk2, hh2⟩ := runs_ok_then (hcond f c1 _ (single_ok hce) m1 hi1)
+      obtain ⟨m2, ex2, hi2, hc2, hk2, hh2⟩ := runs_ok_then (hcond.run f c1 _ (single_ok hce) m1 hi1)
       have hf2 : FlagOKF incr n m2.ρ := flagOKF_congr incr n _ _ (hk2.flags n hBn) hf1
       have ff2 : FlagsKept B n m1 m2 := hk2.flagsKept
       split at h
@@ -280,7 +284,7 @@ theorem loop_simF {ctx : Ctx} {T : List FEntry} {B : Nat} {cond : Expr} {incr : 
       rename_i k c0 hce
       simp only [Option.some.injEq, Prod.mk.injEq] at h
       obtain ⟨rfl, rfl⟩ := h
-      obtain ⟨m2, ex2, ho2⟩ := hcond f c1 _ (single_exit hce) m1 hi1
+      obtain ⟨m2, ex2, ho2⟩ := hcond.run f c1 _ (single_exit hce) m1 hi1
       refine ⟨m2, .exit k, ExecLoop.exit ?_, rfl, ho2, fun hne => absurd rfl (hne k), fun vs hv => by cases hv⟩
       exact execCmds_append hP0 (execCmds_stop_append _ ex2 (by simp))
     · simp at h
